@@ -32,6 +32,11 @@ func (sa *StructAccessor) Set(key string, value interface{}) error {
 
 	// set directly if type matches
 	if newVal.Kind() == field.Kind() {
+		// The kind alone does not tell: a []interface{} cannot be assigned to a
+		// []string, nor a map[string]interface{} to a map[string]string.
+		if !newVal.Type().AssignableTo(field.Type()) {
+			return fmt.Errorf("tried to set field %s (%s) to a %s value", key, field.Type().String(), newVal.Type().String())
+		}
 		field.Set(newVal)
 		return nil
 	}
